@@ -17,6 +17,11 @@ CLAIMS = {
    "Proof of the structural statement: no ApplyCommands implementation is reachable on the compare path; every path to one lies on the false edge of the compare flag, which callers bind to --compare / the verb 'compare'; every command pattern that can reach a device primitive outside the apply region is in the frozen read-only allow-list (the ASA terminal-width trio being the property's documented exception). All obligations are discharged on every run.",
    "Trusted: call-graph soundness (asserted: no reflect/unsafe/cgo/linkname), read-only-ness of the allow-listed commands themselves.",
    "DESIGN.md section 4 C11"),
+ "C12": ("proof",
+   "gated call-graph reachability (VTA, one level of constant-argument context), dominance and def-use on go/ssa",
+   "Proof of the structural statement, modulo flock semantics: one lock function with LOCK_EX|LOCK_NB on <configured dir>/lock/base(<device argument>); in both front-ends every call path from an entry point to any effect (file create/write/rename/remove, ssh spawn, device send, HTTP request, process start) passes the success edge of the lock call; the lock handle is kept alive by a deferred Close only; a failed flock is returned as error. All obligations discharged on every run.",
+   "Trusted: flock(2) semantics (exclusive, released by the kernel at process exit/kill), call-graph soundness, effect classification at the module/library boundary (table in c12.go). Not decided: interleavings themselves, NFS, removal of a held lock file by cron.",
+   "DESIGN.md section 4 C12"),
 }
 
 NOT_APPLICABLE = {
